@@ -94,6 +94,8 @@ def make_dataset(seed, idx):
     raise RuntimeError('could not draw a dataset')
   perm = rng.permutation(n)
   X, y = X[perm], y[perm]
+  if not np.any(np.all(X[1:] == np.r_[0.0, X[0, 1:]], axis=1)):
+    X[0, 0] = 0.0                      # an exact zero coordinate (rows stay distinct)
   yreg = y + rng.randint(-8, 9, size=n) / 16.0
   by = [np.where(y == c)[0] for c in range(ncls)]
   # chunks: two chunks of 3-4 points per class, the rest unassigned
@@ -126,7 +128,10 @@ def make_dataset(seed, idx):
     pos += [(m[i], m[(i + 1) % len(m)]) for i in range(0, len(m), 2)]
   while len(pos) < 16:
     pos.append(same())
-  neg = [differ() for _ in range(len(pos))]
+  # point 0 (which has an exactly zero coordinate, see below) occurs in several pairs
+  mates = [i for i in by[y[0]] if i != 0]
+  pos.append((0, int(mates[0])))
+  neg = [differ() for _ in range(len(pos) - 1)] + [(0, int(by[(y[0] + 1) % ncls][0]))]
   pairs = np.array(pos + neg)
   ypairs = np.array([1] * len(pos) + [-1] * len(neg))
   pp = rng.permutation(len(pairs))
@@ -163,7 +168,7 @@ def configs(name, variant):
       'LMNN': dict(init=('identity', 'auto')[v], n_neighbors=3, max_iter=12, learn_rate=1e-4, random_state=rs),
       'NCA': dict(init=('auto', 'identity')[v], max_iter=5, random_state=rs),
       'MLKR': dict(init=('auto', 'identity')[v], max_iter=5, random_state=rs),
-      'RCA': {},
+      'RCA': dict(n_components=(None, 'd-1')[v]),       # with reduction to d-1 dimensions for every other dataset (resolved at fit time)
       'RCA_Supervised': dict(n_chunks=6, chunk_size=(2, 3)[v], random_state=rs),
       'ITML': dict(prior=('identity', 'covariance')[v], max_iter=60, random_state=rs),
       'ITML_Supervised': dict(prior=('covariance', 'identity')[v], max_iter=60, n_constraints=40, random_state=rs),
@@ -187,6 +192,8 @@ def fit(ml, name, kw, D, X, pairs=None, quads=None, order=None):
   y, yreg, chunks = D['y'], D['yreg'], D['chunks']
   if order is not None:
     X, y, yreg, chunks = X[order], y[order], yreg[order], chunks[order]
+  if kw.get('n_components') == 'd-1':
+    kw = dict(kw, n_components=max(1, X.shape[1] - 1))
   est = getattr(ml, name)(**kw)
   if name == 'Covariance':
     return est.fit(X)
@@ -195,7 +202,18 @@ def fit(ml, name, kw, D, X, pairs=None, quads=None, order=None):
   if name == 'MLKR':
     return est.fit(X, yreg)
   if name in ('ITML', 'MMC', 'SDML'):
-    return est.fit(X[pairs], D['ypairs'])
+    P = X[pairs]
+    # equal numbers, different bit patterns: where a point that occurs in several pairs has a zero coordinate, its later occurrences carry
+    # -0.0 (what quantising real data with np.round produces).  Value-wise nothing changes -- and after a translation the zeros are gone.
+    seen_ = set()
+    flat = pairs.reshape(-1)
+    Pf = P.reshape(len(flat), -1)
+    for r_, pid in enumerate(flat):
+      if int(pid) in seen_:
+        z_ = Pf[r_] == 0
+        Pf[r_, z_] = -0.0
+      seen_.add(int(pid))
+    return est.fit(Pf.reshape(P.shape), D['ypairs'])
   if name == 'LSML':
     return est.fit(X[quads])
   if name == 'SCML':
